@@ -298,7 +298,7 @@ def check_case(pt, acc, c):
         if not (cls == "int" and c.get("py") in ("bool", "bool_false", "intenum")):
             return
     # ---- compile and decode
-    version = 6
+    version = [6, 5, 7, 8, 9, 10][int(key, 16) % 6]  # (Log needs v5)
     try:
         if cls == "int":
             teal = pt.compileTeal(pt.Seq(pt.Log(pt.Itob(expr)), pt.Int(1)), pt.Mode.Application, version=version)
@@ -403,7 +403,8 @@ def check_case(pt, acc, c):
         seq = []
         for cv in comp:
             seq += [cv] * r4.choice([2, 2, 3, 4, 5])
-        seq += [expected] * r4.choice([1, 2, 3])
+        r4.shuffle(seq)
+        seq = seq[:27] + [expected] * r4.choice([1, 2, 3])  # (an application call may log at most 32 times)
         r4.shuffle(seq)
         try:
             teal4 = pt.compileTeal(pt.Seq(*[pt.Log(pt.Itob(pt.Int(x))) for x in seq], pt.Int(1)), pt.Mode.Application, version=version, assembleConstants=True)
